@@ -549,6 +549,29 @@ pub fn targets(tier: &str) -> Vec<Target> {
         }
     }
     v.extend(ep_family(thorough));
+    // fifty-move frontier: material-imbalanced endings with the half-move clock at 94..99 and
+    // either side to move - the rule draw arrives inside the search, at every distance from the
+    // horizon, for the side that is behind as well as for the side that is ahead
+    for base in [
+        "7k/p7/8/8/8/8/6R1/K7",
+        "8/8/4k3/8/8/3K4/4P3/R7",
+        "8/3p4/4k3/8/8/3K4/8/R7",
+        "4k3/8/8/8/8/8/8/Q3K3",
+        "8/5k2/8/8/8/2n5/8/K6R",
+        "6k1/5b2/8/8/8/8/1Q6/K7",
+        "8/8/8/3k4/8/8/1r6/K2R4",
+    ] {
+        for stm in ["w", "b"] {
+            for clock in 94..=99u32 {
+                let fen = format!("{base} {stm} - - {clock} 80");
+                let Ok(p) = Pos::from_fen(&fen) else { continue };
+                if p.in_check(!p.white) || p.legal_moves().is_empty() {
+                    continue;
+                }
+                v.push(Target { name: format!("fifty {fen}"), fen, history: vec![], max_depth: if thorough { 5 } else { 4 } });
+            }
+        }
+    }
     // positions where a mate score appears early but a shorter mate exists deeper (see generate_deepening)
     for line in include_str!("deepening_family.txt").lines() {
         if let Some((d, fen)) = line.split_once('\t') {
